@@ -105,7 +105,10 @@ func JSONGetNaturalLanguageField(val *fastjson.Value, prop string) NaturalLangua
 	}
 	v := val.Get(prop)
 	if v == nil {
-		return nil
+		// JSONWriteNaturalLanguageProp writes a value with more than one language as "<prop>Map"
+		if v = val.Get(prop + "Map"); v == nil {
+			return nil
+		}
 	}
 	switch v.Type() {
 	case fastjson.TypeObject:
